@@ -19,6 +19,9 @@ from typing import Any
 from harness.common import TranslateError, src_text
 
 
+NORMALISED = {'runlength_decode', '_lmp_read_visibility', '_lmp_write_visibility', '_lmp_write_textures', '_lmp_read_textures', 'write_ent_data'}
+
+
 def _fn(tree: ast.AST, name: str) -> ast.FunctionDef:
     for n in ast.walk(tree):
         if isinstance(n, ast.FunctionDef) and n.name == name:
@@ -320,7 +323,8 @@ def ent_text(tree: ast.Module) -> dict[str, Any]:
         raise TranslateError('write_ent_data: key/value are not interpolated in this order')
     km, vm = _mode(t[1][1], 'write_ent_data'), _mode(t[3][1], 'write_ent_data')
     # framing: braces, newline, final NUL are compared byte by byte by the correspondence of checks/c11.py
-    vtree = ast.parse(src_text('vmf.py'))
+    from translate import c11_norm
+    vtree = c11_norm.functions(ast.parse(src_text('vmf.py')), {'as_keyvalue'})
     ocls = next((n for n in vtree.body if isinstance(n, ast.ClassDef) and n.name == 'Output'), None)
     if ocls is None:
         raise TranslateError('vmf.py: class Output not found')
@@ -376,13 +380,15 @@ def nl(xs: list[int]) -> str:
 
 
 def translate() -> tuple[str, dict]:
-    from translate import c11_dedup, c11_helpers, c11_records
-    tree = ast.parse(src_text('bsp.py'))
-    r_expr, r_passes, r_src = vis_reader(tree)
-    w_expr, w_guard, w_src = vis_writer(tree)
-    tx = textures(tree)
+    from translate import c11_dedup, c11_helpers, c11_norm, c11_records
+    tree = c11_norm.struct_constants(ast.parse(src_text('bsp.py')))
+    # the statement-shape matchers of this module read a normalised copy (constants, aliases, single-use locals, early continue)
+    gtree = c11_norm.functions(tree, NORMALISED)
+    r_expr, r_passes, r_src = vis_reader(gtree)
+    w_expr, w_guard, w_src = vis_writer(gtree)
+    tx = textures(gtree)
     rec_text, rec_side = c11_records.generate(tree)
-    et = ent_text(tree)
+    et = ent_text(gtree)
     dd_text, dd_side = c11_dedup.generate(tree)
     hp_text, hp_side = c11_helpers.generate(tree)
     L = ['(* GENERATED by translate/c11_glue.py + c11_records.py + c11_dedup.py + c11_helpers.py from src/srctools/bsp.py, binformat.py, vmf.py. Do not edit. *)',
